@@ -658,6 +658,7 @@ func c01(r *core.Report) {
 			sel *ast.SelectorExpr
 		}
 		reads := map[*types.Var][]readSite{}
+		subReads := map[*types.Var][]readSite{}
 		for _, fd := range family {
 			recv := recvObj(info, fd)
 			ast.Inspect(fd.Body, func(n ast.Node) bool {
@@ -667,11 +668,33 @@ func c01(r *core.Report) {
 							if core.TagOfField(schemaSt, f) != "" {
 								reads[f] = append(reads[f], readSite{fd, sel})
 							}
+						} else if nn := core.NamedOf(info.TypeOf(sel.X)); nn == schemaT && core.TagOfField(schemaSt, f) != "" {
+							// a keyword of a sub-schema enforced while the parent is visited (readOnly /
+							// writeOnly of a property): IsEmpty descends into sub-schemas, so it must
+							// count the keyword there
+							if _, isBool := f.Type().Underlying().(*types.Basic); isBool {
+								subReads[f] = append(subReads[f], readSite{fd, sel})
+							}
 						}
 					}
 				}
 				return true
 			})
+		}
+		{
+			var fs []*types.Var
+			for f := range subReads {
+				fs = append(fs, f)
+			}
+			sort.Slice(fs, func(i, j int) bool { return fs[i].Name() < fs[j].Name() })
+			for _, f := range fs {
+				key := "empty-reads-sub:" + core.TagOfField(schemaSt, f)
+				if emptyReads[f] {
+					r.OK(key, p.Pos(subReads[f][0].sel.Pos()), "read by IsEmpty")
+				} else {
+					r.Bad(key, p.Pos(subReads[f][0].sel.Pos()), fmt.Sprintf("the visitors enforce `%s` of a sub-schema while visiting its parent (here), but IsEmpty does not count it: a sub-schema that carries nothing else is empty, its parent may be empty too, visitJSON returns before the object visitor runs and the keyword is never enforced", core.TagOfField(schemaSt, f)))
+				}
+			}
 		}
 		var fields []*types.Var
 		for f := range reads {
